@@ -120,6 +120,16 @@ def run(c, prog, ctx):
     from .predicates import run_predicates
     run_predicates(c, prog, "R2.commitment-guards")
 
+    # the read-set rules above say which fields reach the hash, not how: that the TxIn writer folds *both* flag bits into the
+    # index independently and writes every non-witness field, and that TxOut/AssetIssuance/confidential writers write all of
+    # theirs, are C01's writer rules, evaluated here (a field folded away under some flag combination is not committed)
+    from . import c01 as _c01
+    c.borrow(_c01, "C01", prog, ctx,
+             lambda rule, k: rule in ("R3.txin-writer", "R3.txin-flag-folding", "R3.confidential-writer")
+             or (rule == "R3.struct-all-fields" and k.split("|")[1] in ("<transaction::TxOut as encode::Encodable>::consensus_encode",
+                                                                         "<transaction::AssetIssuance as encode::Encodable>::consensus_encode")),
+             "R2.writer-exact", 7)
+
     # ---------------- R3 Transaction::consensus_encode
     enc = prog.fn("<transaction::Transaction as encode::Encodable>::consensus_encode")
     ev = _ev_list(enc.body)
